@@ -503,7 +503,11 @@ def step2(s, ev):
         res['values_intact'] = node_values_key(s.cg) == before
         return res
     if ev[0] == 'gradient':
-        g = s.cg.gradient([PTS2[ev[1]][0].copy(), PTS2[ev[1]][1].copy()])
+        # the caller keeps ONE list of points per evaluation point and passes the same list object in every call
+        if not hasattr(s, 'pts'):
+            s.pts = {}
+        pts = s.pts.setdefault(ev[1], [PTS2[ev[1]][0].copy(), PTS2[ev[1]][1].copy()])
+        g = s.cg.gradient(pts)
         return [np.array(v, copy=True) for v in g]
     raise ValueError(ev)
 
